@@ -175,7 +175,10 @@ def _finite_cover(guards: t.List[ast.If], fa: t.Dict[str, str], fb: t.Dict[str, 
 
 # ------------------------------------------------------------------------- O3
 def _kdf_calls(f: Func) -> t.List[ast.Call]:
-    return sorted([n for n in body_nodes(f.node) if isinstance(n, ast.Call) and unparse(n.func) == "kdf"], key=lambda n: n.lineno)
+    from .util import source_order
+
+    pos = source_order(f)
+    return sorted([n for n in body_nodes(f.node) if isinstance(n, ast.Call) and unparse(n.func) == "kdf"], key=lambda n: pos.get(id(n), 0))
 
 
 def _kdf_common(repo: Repo, chk: Check, f: Func, c: ast.Call, length: int = 64) -> None:
@@ -188,8 +191,15 @@ def _kdf_common(repo: Repo, chk: Check, f: Func, c: ast.Call, length: int = 64) 
     chk.ob("O3", site, oka, "hash algorithm passed through" if oka else f"kdf algorithm is {unparse(c.args[0])}")
 
 
-def _ctx_args(c: ast.Call) -> t.Optional[t.List[str]]:
+def _ctx_args(c: ast.Call, f: t.Optional[Func] = None) -> t.Optional[t.List[str]]:
     ctx = c.args[3] if len(c.args) > 3 else None
+    if f is not None and isinstance(ctx, ast.Name):
+        # a context hoisted into a local: follow its single definition
+        from sa.flow import ReachingDefs
+
+        d = ReachingDefs(f).single_def(ctx.id, c)
+        if d is not None and d.kind == "assign" and d.index is None and d.value is not None:
+            ctx = d.value
     if isinstance(ctx, ast.Call) and unparse(ctx.func) == "compute_kdf_context" and len(ctx.args) == 4:
         return [unparse(a) for a in ctx.args]
     return None
@@ -199,7 +209,10 @@ def recipe_l2(repo: Repo, chk: Check, f: Func) -> None:
     g = build(f.node)
     rd = ReachingDefs(f, g)
     calls = _kdf_calls(f)
-    loops = sorted([n for n in body_nodes(f.node) if isinstance(n, (ast.While, ast.For))], key=lambda n: n.lineno)
+    from .util import source_order
+
+    pos_ = source_order(f)
+    loops = sorted([n for n in body_nodes(f.node) if isinstance(n, (ast.While, ast.For))], key=lambda n: pos_.get(id(n), 0))
     if len(calls) != 3 or len(loops) != 2:
         raise AnalysisError(f"compute_l2_key: expected 3 kdf calls and 2 loops, found {len(calls)} and {len(loops)}")
     al = _aliases(f)
@@ -215,25 +228,25 @@ def recipe_l2(repo: Repo, chk: Check, f: Func) -> None:
     # L1 walk
     ok = any(x is walk1 for x in ast.walk(loops[0]))
     chk.ob("O3", Site.of(f, walk1), ok, "first derivation is the L1 walk")
-    a = _ctx_args(walk1)
+    a = _ctx_args(walk1, f)
     want = [f"{rk}.root_key_identifier", f"{rk}.l0", l1v, "-1"]
     chk.ob("O3", Site.of(f, walk1, "L1 walk context"), a == want, f"context(RKID, L0, {l1v}, -1)" if a == want else f"L1 walk context is {a}, expected {want}")
     okk = unparse(walk1.args[1]) == l1k and _assigned_to(walk1, loops[0]) == l1k
     chk.ob("O3", Site.of(f, walk1, "L1 walk chaining"), okk, "L1 key derived from the previous L1 key" if okk else f"L1 walk derives {_assigned_to(walk1, loops[0])} from {unparse(walk1.args[1])}")
     chk.ob("O3", Site.of(f, loops[0], "L1 walk order"), _dec_before(loops[0], l1v, walk1), "index decremented before the derivation" )
     # reseed
-    a = _ctx_args(reseed)
+    a = _ctx_args(reseed, f)
     want = [f"{rk}.root_key_identifier", f"{rk}.l0", l1v, l2v]
     chk.ob("O3", Site.of(f, reseed, "reseed context"), a == want, f"context(RKID, L0, {l1v}, {l2v}=31)" if a == want else f"reseed context is {a}, expected {want}")
     ifs = [n for n in body_nodes(f.node) if isinstance(n, ast.If) and any(x is reseed for x in ast.walk(n))]
-    set31 = bool(ifs) and any(isinstance(s, ast.Assign) and unparse(s.targets[0]) == l2v and repo.try_fold(s.value, f.mod) == (True, 31) and s.lineno < reseed.lineno for s in ifs[-1].body)
+    set31 = bool(ifs) and any(isinstance(s, ast.Assign) and unparse(s.targets[0]) == l2v and repo.try_fold(s.value, f.mod) == (True, 31) and pos_.get(id(s), 0) < pos_.get(id(reseed), 0) for s in ifs[-1].body)
     chk.ob("O3", Site.of(f, reseed, "reseed index"), set31, "L2 index set to 31 before reseeding" if set31 else "the reseed does not start the L2 chain at 31")
     okk = unparse(reseed.args[1]) == l1k and _assigned_to(reseed, ifs[-1] if ifs else f.node) == l2k
     chk.ob("O3", Site.of(f, reseed, "reseed chaining"), okk, "L2(31) derived from the L1 key" if okk else f"reseed derives {_assigned_to(reseed, f.node)} from {unparse(reseed.args[1])}")
     # L2 walk
     ok = any(x is walk2 for x in ast.walk(loops[1]))
     chk.ob("O3", Site.of(f, walk2), ok, "last derivation is the L2 walk")
-    a = _ctx_args(walk2)
+    a = _ctx_args(walk2, f)
     chk.ob("O3", Site.of(f, walk2, "L2 walk context"), a == want, f"context(RKID, L0, {l1v}, {l2v})" if a == want else f"L2 walk context is {a}, expected {want}")
     okk = unparse(walk2.args[1]) == l2k and _assigned_to(walk2, loops[1]) == l2k
     chk.ob("O3", Site.of(f, walk2, "L2 walk chaining"), okk, "L2 key derived from the previous L2 key" if okk else f"L2 walk derives {_assigned_to(walk2, loops[1])} from {unparse(walk2.args[1])}")
@@ -267,7 +280,12 @@ def _dec_before(loop: t.Union[ast.While, ast.For], var: str, call: ast.Call) -> 
         # the loop variable already holds the decremented index in the body; it must not be changed again before the call
         return unparse(loop.target) == var and not any(isinstance(s, (ast.AugAssign, ast.Assign)) and var in [unparse(x) for x in ([s.target] if isinstance(s, ast.AugAssign) else s.targets)] for s in loop.body)
     dec = [s for s in loop.body if isinstance(s, ast.AugAssign) and unparse(s.target) == var and isinstance(s.op, ast.Sub) and unparse(s.value) == "1"]
-    return len(dec) == 1 and dec[0].lineno < call.lineno
+    if len(dec) != 1:
+        return False
+    # the decrement is an earlier statement of the loop body than the one containing the call
+    idx_dec = loop.body.index(dec[0])
+    idx_call = next((i for i, s in enumerate(loop.body) if any(x is call for x in ast.walk(s))), -1)
+    return 0 <= idx_dec < idx_call
 
 
 def l1_recipe(repo: Repo, chk: Check) -> None:
@@ -280,10 +298,16 @@ def l1_recipe(repo: Repo, chk: Check) -> None:
     for c in calls:
         chk.count("kdf sites")
         _kdf_common(repo, chk, f, c)
-    a0 = _ctx_args(calls[0])
+    a0 = _ctx_args(calls[0], f)
     want0 = [p[1], p[2], "-1", "-1"]
     chk.ob("O3", Site.of(f, calls[0], "L0 seed"), a0 == want0 and unparse(calls[0].args[1]) == p[3], "L0 seed = KDF(root key, context(RKID, L0, -1, -1))" if a0 == want0 and unparse(calls[0].args[1]) == p[3] else f"L0 seed is KDF({unparse(calls[0].args[1])}, context{a0})")
     ctx = calls[1].args[3]
+    if isinstance(ctx, ast.Name):
+        from sa.flow import ReachingDefs as _RD
+
+        d_ = _RD(f).single_def(ctx.id, calls[1])
+        if d_ is not None and d_.kind == "assign" and d_.index is None and d_.value is not None:
+            ctx = d_.value
     ok1 = isinstance(ctx, ast.BinOp) and isinstance(ctx.op, ast.Add) and isinstance(ctx.left, ast.Call) and unparse(ctx.left.func) == "compute_kdf_context" and [unparse(x) for x in ctx.left.args] == [p[1], p[2], "31", "-1"] and unparse(ctx.right) == p[0]
     seed_name = _assigned_to(calls[0], f.node)
     ok1 = ok1 and unparse(calls[1].args[1]) == seed_name
